@@ -58,6 +58,11 @@ func ValueToJson(arena *fastjson.Arena, t octosql.Type, value octosql.Value) *fa
 		return arena.NewNull()
 	}
 
+	if t.TypeID == octosql.TypeIDAny {
+		// The static type says nothing about the shape of the value, so the value's own type is used.
+		t = value.Type()
+	}
+
 	switch value.TypeID {
 	case octosql.TypeIDNull:
 		return arena.NewNull()
@@ -90,7 +95,12 @@ func ValueToJson(arena *fastjson.Arena, t octosql.Type, value octosql.Value) *fa
 	case octosql.TypeIDStruct:
 		arr := arena.NewObject()
 		for i := range value.Struct {
-			arr.Set(t.Struct.Fields[i].Name, ValueToJson(arena, t.Struct.Fields[i].Type, value.Struct[i]))
+			name := t.Struct.Fields[i].Name
+			if name == "" {
+				// Field names are only known statically; a value typed Any has none.
+				name = fmt.Sprintf("field_%d", i)
+			}
+			arr.Set(name, ValueToJson(arena, t.Struct.Fields[i].Type, value.Struct[i]))
 		}
 		return arr
 	case octosql.TypeIDTuple:
